@@ -491,8 +491,9 @@ class Slice:
     """Backward value slice inside one body (flow-insensitive over definitions of each local)."""
 
     def __init__(self, fn, transparent=is_transparent, through_binops=True, through_all_calls=False,
-                 through_aggregates=True):
+                 through_aggregates=True, opaque=None):
         self.fn = fn
+        self.opaque = opaque  # predicate on callee: never look through these calls
         self.transparent = transparent
         self.through_binops = through_binops
         self.through_all_calls = through_all_calls
@@ -550,6 +551,8 @@ class Slice:
                     t = df["t"]
                     cal = callee_of(t)
                     out.append(("call", df["b"], t))
+                    if self.opaque is not None and self.opaque(cal):
+                        continue
                     if self.through_all_calls or self.transparent(cal):
                         for a in (t["args"] if self.through_all_calls else t["args"][:1]):
                             push_op(a)
